@@ -1340,15 +1340,15 @@ func SubqueryExpr(query *Query, current Map, expr *sqlparser.Subquery, opts ...E
 		return nil, err
 	}
 	rs, err := subQuery.exec()
-	if err != nil {
-		return nil, err
-	}
-	query.postProcessors = append(query.postProcessors, subQuery.postProcessors...)
 	query.wg.Add(1)
 	go func() {
 		subQuery.wg.Wait()
 		query.wg.Done()
 	}()
+	if err != nil {
+		return nil, err
+	}
+	query.postProcessors = append(query.postProcessors, subQuery.postProcessors...)
 	return rs, nil
 }
 
@@ -1942,6 +1942,8 @@ FINALIZE:
 func (query *Query) execAndPostProcess() (result any, err error) {
 	rs, err := query.exec()
 	if err != nil {
+		// the ASYNC and SPINASYNC calls started before the failure do not outlive the query
+		query.wg.Wait()
 		return nil, err
 	}
 	query.wg.Wait()
